@@ -57,9 +57,9 @@ def run(ctx):
     # role: the function both constructors call to fill the two fields
     cons = [B + "::from_fen", "cozy_chess::board::builder::BoardBuilder::add_board"]
     defn = None
-    for k, b in f.bodies.items():
-        if b.kind == "AssocFn" and b.j.get("impl_self") == B and b.argc == 2 and b.locals[0]["ty"].startswith("(cozy_chess_types::bitboard::BitBoard, cozy_chess_types::bitboard::BitBoard"):
-            defn = b
+    from .common import checkers_pins_definition
+    for k in checkers_pins_definition(f):
+        defn = f.bodies[k]
     if defn is None:
         from ..facts import MissingAnchor
         raise MissingAnchor("definition of checkers and pins (&Board, Color) -> (BitBoard, BitBoard)")
